@@ -104,7 +104,7 @@ _ADDED = {
     'C16': ' Later additions: numpy scalars, 0-d arrays and ndarrays on either side, numpy comparison ufuncs.',
     'C17': ' Later additions: numpy-scalar scale / bias, scale / bias next to like=, uint64 and fixed-point carriers, like() route, elements of scaled arrays, sums delivered into scaled out / out_like targets or taken with a scaled operand. resize of a scaled object.',
     'C18': ' Later additions: element-wise assignment of python integers into wide arrays (elements must stay python ints). Lists / tuples mixing numpy integer scalars with python integers.',
-    'C20': ' Later additions: arrays returned by x(), get_val(), astype() are overwritten and the object must not change. Write-through for any basic first index (columns, stepped / reversed / offset slices).',
+    'C20': ' Later additions: arrays returned by x(), get_val(), astype() are overwritten and the object must not change. Write-through for any basic first index (columns, stepped / reversed / offset slices). flatten / ravel / .T / fxp_like as derivation routes.',
 }
 for _k, _v in _ADDED.items():
     TEXT[_k]['level'] += _v
